@@ -23,7 +23,7 @@ ORDERS = ["sets-first", "seeds-first", "cands-first", "reclaim", "raw-cands-firs
 def cases(tier, seed):
     rng = random.Random(f"C12/{seed}")
     nmax, count = (7, 5000) if tier == "quick" else (8, 30000)
-    cl = [("gadget", 4), ("dense-neg", 4), ("rand", 2), ("rand-wide", 2), ("inputs", 2), ("overlap-maa", 0.3), ("rings", 3)]
+    cl = [("gadget", 4), ("dense-neg", 4), ("rand", 2), ("rand-wide", 2), ("inputs", 2), ("overlap-maa", 0.3), ("rings", 3), ("cond-maa", 2)]
     nets = gen.corpus() + [gen.draw(rng, cl, nmax) for _ in range(count)] + [gen.model_net(f) for f in gen.models_up_to(9 if tier == "quick" else 12)]
     out = []
     for n in nets:
